@@ -123,7 +123,13 @@ func someString(nm string, maxLen int) string {
 	if !symStrings {
 		return "s\"\n"
 	}
-	return vrt.String(nm, vrt.Choice(nm+".len", maxLen+1))
+	// call trees use arbitrary ASCII (quotes, backslashes, control characters
+	// included); all 256 byte values are covered by H15_String
+	s := vrt.String(nm, vrt.Choice(nm+".len", maxLen+1))
+	for i := 0; i < len(s); i++ {
+		vrt.Assume(s[i] < 0x80)
+	}
+	return s
 }
 
 func genValueM(nm string, d int, full bool, calls *[]call, exp *[]jtok) {
@@ -457,6 +463,60 @@ func jsonParse(data []byte) ([]jtok, bool) {
 	return p.toks, true
 }
 
+func cont(c byte) bool { return c >= 0x80 && c <= 0xBF }
+
+// utf8Valid: the bytes are well-formed UTF-8 (RFC 3629 table). The property
+// promises that strings parse back to themselves for valid UTF-8 only; for
+// arbitrary bytes it promises valid JSON.
+func utf8Valid(s string) bool {
+	for i := 0; i < len(s); {
+		c := s[i]
+		n := len(s) - i
+		switch {
+		case c < 0x80:
+			i++
+		case c >= 0xC2 && c <= 0xDF:
+			if n < 2 || !cont(s[i+1]) {
+				return false
+			}
+			i += 2
+		case c == 0xE0:
+			if n < 3 || s[i+1] < 0xA0 || s[i+1] > 0xBF || !cont(s[i+2]) {
+				return false
+			}
+			i += 3
+		case c == 0xED:
+			if n < 3 || s[i+1] < 0x80 || s[i+1] > 0x9F || !cont(s[i+2]) {
+				return false
+			}
+			i += 3
+		case c >= 0xE1 && c <= 0xEF:
+			if n < 3 || !cont(s[i+1]) || !cont(s[i+2]) {
+				return false
+			}
+			i += 3
+		case c == 0xF0:
+			if n < 4 || s[i+1] < 0x90 || s[i+1] > 0xBF || !cont(s[i+2]) || !cont(s[i+3]) {
+				return false
+			}
+			i += 4
+		case c >= 0xF1 && c <= 0xF3:
+			if n < 4 || !cont(s[i+1]) || !cont(s[i+2]) || !cont(s[i+3]) {
+				return false
+			}
+			i += 4
+		case c == 0xF4:
+			if n < 4 || s[i+1] < 0x80 || s[i+1] > 0x8F || !cont(s[i+2]) || !cont(s[i+3]) {
+				return false
+			}
+			i += 4
+		default:
+			return false
+		}
+	}
+	return true
+}
+
 // sameTokens: the parsed document equals the call tree. Numbers: integers by
 // text, floats by parsing the text back to the same bits.
 func sameTokens(exp, got []jtok) bool {
@@ -481,6 +541,7 @@ func sameTokens(exp, got []jtok) bool {
 				return false
 			}
 		case tName, tString:
+			// (tree strings are ASCII by assumption, hence valid UTF-8)
 			ok = vrt.And(ok, exp[i].S == got[i].S)
 		}
 	}
@@ -582,8 +643,12 @@ func H15_String() {
 	if ok {
 		vrt.Assert("shape", len(toks) == 4 && toks[1].K == tName && toks[2].K == tString)
 		if len(toks) == 4 {
-			vrt.Assert("member name parses back to itself", toks[1].S == name)
-			vrt.Assert("string parses back to itself", toks[2].S == s)
+			if utf8Valid(name) {
+				vrt.Assert("member name (valid UTF-8) parses back to itself", toks[1].S == name)
+			}
+			if utf8Valid(s) {
+				vrt.Assert("string (valid UTF-8) parses back to itself", toks[2].S == s)
+			}
 		}
 	}
 }
@@ -645,4 +710,45 @@ func H15_ResetPairs_T() {
 	play(&fresh, c2)
 	vrt.Assert("after Reset the output equals a new outputter's", vrt.BytesEq(got, fresh.Done()))
 	_ = e2
+}
+
+// H15_ResetOffsets: a re-used outputter must not remember byte offsets of the
+// previous document: first and second documents of varying lengths, the
+// second ending in empty containers at every offset near the first's length.
+func H15_ResetOffsets() {
+	names := []string{"", "a", "ab", "abc", "abcd"}
+	var used plenccodec.JSONOutput
+	var first []call
+	switch vrt.Choice("first", 3) {
+	case 0:
+		first = []call{{K: cStartObj}, {K: cName, S: names[vrt.Choice("n1", 5)]}, {K: cInt, I: int64Corners[1+vrt.Choice("i1", 4)]}, {K: cEndObj}}
+	case 1:
+		first = []call{{K: cStartArr}, {K: cString, S: names[vrt.Choice("n1", 5)]}, {K: cInt, I: 7}, {K: cEndArr}}
+	case 2:
+		first = []call{{K: cStartObj}, {K: cName, S: "k"}, {K: cStartArr}, {K: cString, S: names[vrt.Choice("n1", 5)]}, {K: cEndArr}, {K: cEndObj}}
+	}
+	play(&used, first)
+	if vrt.Choice("done-first", 2) == 1 {
+		used.Done()
+	}
+	used.Reset()
+	n2 := names[vrt.Choice("n2", 5)]
+	var second []call
+	switch vrt.Choice("second", 4) {
+	case 0:
+		second = []call{{K: cStartObj}, {K: cName, S: n2}, {K: cStartObj}, {K: cEndObj}, {K: cEndObj}}
+	case 1:
+		second = []call{{K: cStartObj}, {K: cName, S: n2}, {K: cStartArr}, {K: cEndArr}, {K: cEndObj}}
+	case 2:
+		second = []call{{K: cStartArr}, {K: cString, S: n2}, {K: cStartArr}, {K: cEndArr}, {K: cStartObj}, {K: cEndObj}, {K: cEndArr}}
+	case 3:
+		second = []call{{K: cStartObj}, {K: cName, S: n2}, {K: cInt, I: 5}, {K: cName, S: "z"}, {K: cStartArr}, {K: cEndArr}, {K: cEndObj}}
+	}
+	play(&used, second)
+	got := append([]byte{}, used.Done()...)
+	var fresh plenccodec.JSONOutput
+	play(&fresh, second)
+	vrt.Assert("after Reset the output equals a new outputter's", vrt.BytesEq(got, fresh.Done()))
+	_, ok := jsonParse(got)
+	vrt.Assert("and is valid JSON", ok)
 }
